@@ -4,6 +4,7 @@ import OmbottModel.Lemmas.RouterPrio
 import OmbottModel.Lemmas.RouterIns
 import OmbottModel.Lemmas.RouterResolve
 import OmbottModel.Lemmas.RouterParse
+import OmbottModel.Lemmas.RouterPrint
 /-!
 C01 — Route resolution equals the plain rule-by-rule semantics.
 Property theorems only; helper lemmas live in `Lemmas/Router*.lean`.
@@ -55,6 +56,18 @@ theorem rule_without_marker_ok (cenv : CompileEnv) (a : AddArgs) (hr : Gen.param
 theorem one_name_per_wildcard (cenv : CompileEnv) (rule : Str) (p : Parsed)
     (h : parseRule cenv rule = .ok p) : p.params.length = countToks p.syms :=
   parseRule_params_len h
+
+/-- **Rule syntax flavours.**  For every abstract rule (literal runs without parameter tokens,
+wildcards with identifier names, filter names other than `path`, filter arguments without
+parentheses or backslash for the `(…)` forms and without the closing delimiter for the
+`:arg` form) written in any admissible mix of flavours (`:x`, `:`, `<x>`, `{x}`, `<x:f>`,
+`<:f>`, `<x.f>`, `<x.f(a)>`, `<f(a)>`, `<x:f(a)>`, `<:f(a)>`, `<x:f:a>`, `<:f:a>`, each with `<>` or
+`{}`), `Route.parse_rule` returns the abstract rule's pattern, names and filters, whenever its
+filters can be built.  In particular the result does not depend on the flavours chosen. -/
+theorem parse_print (cenv : CompileEnv) (segs : List ASeg) (h : SegsOK segs)
+    (hb : FiltersBuild cenv segs) :
+    parseRule cenv (printRule segs) = .ok (absParsed segs 0) := by
+  rw [parseRule_printRule cenv segs h, parseParts_abs cenv segs h hb 0]
 
 /-- after every history of `add` / `remove_method` calls the tree is well formed and holds
 exactly the rules the `routes` table lists -/
@@ -279,6 +292,32 @@ example : (Router.run asciiUpper nvOps).resolve nvEnv "/a/12".toList ["POST".toL
 /-- `rule_without_marker_ok`: the hypothesis is decidable on the rule text -/
 example : OpOK (.add nvCenv { rule := "/a/<x:int>".toList, methods := [], handler := 0 }) :=
   rule_without_marker_ok _ _ (by decide)
+
+/-- `parse_print`: `/a/<x:int>-{y.re(b+)}/:z` -/
+def nvSegs : List ASeg :=
+  [.lit "a/".toList, .wild (.colonFilter .angle) (some "x".toList) (some "int".toList) none,
+   .lit "-".toList, .wild (.dotParen .brace) (some "y".toList) (some "re".toList) (some "b+".toList),
+   .lit "/".toList, .wild .colon (some "z".toList) none none]
+
+theorem isIdent_of {c : Char} {r : Str} (hc : isNameStart c = true) (hr : r.all isWord = true) :
+    IsIdent (c :: r) := ⟨c, r, rfl, hc, fun x hx => List.all_eq_true.mp hr x hx⟩
+
+example : printRule nvSegs = "/a/<x:int>-{y.re(b+)}/:z".toList ∧ SegsOK nvSegs ∧ FiltersBuild nvCenv nvSegs := by
+  refine ⟨by decide, ?_, ?_⟩
+  · simp only [nvSegs, SegsOK, WildOK]
+    refine ⟨by decide, by decide, trivial, ⟨?_, ?_, by simp⟩, trivial, by decide, by decide, trivial,
+      ⟨?_, ?_, by simp⟩, trivial, by decide, by decide, trivial, ⟨?_, ?_, by simp⟩, trivial, trivial⟩
+    · intro n hn; cases hn; exact isIdent_of (by decide) (by decide)
+    · intro f hf; cases hf; exact ⟨isIdent_of (by decide) (by decide), by decide⟩
+    · intro n hn; cases hn; exact isIdent_of (by decide) (by decide)
+    · intro f hf; cases hf; exact ⟨isIdent_of (by decide) (by decide), by decide⟩
+    · intro n hn; cases hn; exact isIdent_of (by decide) (by decide)
+    · intro f hf; cases hf
+  · simp only [nvSegs, FiltersBuild]
+    refine ⟨?_, ?_, ?_, trivial⟩
+    · intro f hf; cases hf; exact ⟨rfl, by decide⟩
+    · intro f hf; cases hf; exact ⟨rfl, by decide⟩
+    · intro f hf; cases hf
 
 /-- the filter rejects: not found -/
 example : (Router.run asciiUpper nvOps).resolve nvEnv "/a/x".toList ["POST".toList, "ANY".toList] =
